@@ -7,7 +7,8 @@ from .. import gen_sched, sched, sched_comb, sched_prog as sp
 
 PROP = "C08"
 THEOREMS = ["C08_gather", "C08_gather_once", "C08_chain", "C08_chain_done", "C08_chain_plain", "C08_unwrap",
-            "C08_confluence", "C08_termination", "C08_unexpected"]
+            "C08_confluence", "C08_termination", "C08_unexpected", "C08_blocking_configs",
+            "C08_blocking_configs_fail"]
 AXIOMS_OK = []
 RUN_MODULE = "Exec.RuntimeMachine Exec.RuntimeFutures Run.C08run"
 AGREE = "agree_C08"
@@ -22,12 +23,13 @@ LEVEL_NOTE = ("Theorems are about two Gallina models: Exec/RuntimeFutures.v (cal
               "proved); asyncio.gather / await and concurrent.futures.Future are modelled by their documented "
               "contract; cancellation is outside the quantifier.")
 RULE = ("behaviour-tree programs with 1-6 deferred resolver calls (modes S/P/C, nested deferred values, objects, "
-        "lists, non-null, ResolverError / RuntimeError at any field) x 4 configurations; asyncio and thread pool "
+        "lists, non-null, ResolverError / RuntimeError at any field) x 5 configurations (BlockingExecutor; Executor on BlockingRuntime, AsyncIORuntime without and with thread offload, ThreadPoolRuntime); asyncio and thread pool "
         "under every admissible completion order (depth-first replay, exhaustive up to the tier's bound, sampled "
         "beyond); non-trivial = a deferred configuration with at least two completion orders or a failure; "
         "distinct = distinct (program, configuration)")
 
-CFG = {"bexec": "CBlockingExec", "brt": "CBlockingRt", "aio": "CAsyncio", "pool": "CPool", "threads": "CThreads"}
+CFG = {"bexec": "CBlockingExec", "brt": "CBlockingRt", "aio": "CAsyncio", "aiot": "CAsyncio", "pool": "CPool",
+       "threads": "CThreads"}
 
 
 def F(k, m, b, nn=False, lv=0, **kw):
@@ -68,6 +70,21 @@ def _explore(case):
     if key not in _EXPLORED:
         if len(_EXPLORED) > 6000:
             _EXPLORED.clear()
+        res = _explore_once(case)
+        if any(r.get("hang") for r in res["runs"]) and sched.TIMEOUT[0] > 3.0:
+            # confirm before reporting: the machine may just be overloaded
+            old = sched.TIMEOUT[0]
+            sched.TIMEOUT[0] = 2 * old
+            res = _explore_once(case)
+            sched.TIMEOUT[0] = old
+            if any(r.get("hang") for r in res["runs"]):
+                sched.hang_seen()
+        _EXPLORED[key] = res
+    return _EXPLORED[key]
+
+
+def _explore_once(case):
+    if True:
         prog, cfg = case["prog"], case["config"]
         rng = random.Random(case["seed"])
         if cfg == "threads":
@@ -85,15 +102,14 @@ def _explore(case):
         outcomes = {json.dumps([r.get("data"), sorted(map(json.dumps, r.get("errors", []))), "fail" in r])
                     for r in res["runs"] if not _bad_run(r)}
         res["order_dependent"] = len(outcomes) > 1
-        _EXPLORED[key] = res
-    return _EXPLORED[key]
+        return res
 
 
-def _cases_for(prog, limit, samples, seed, configs=("bexec", "brt", "aio", "pool")):
+def _cases_for(prog, limit, samples, seed, configs=("bexec", "brt", "aio", "aiot", "pool")):
     out = []
     for c in configs:
         case = {"prog": prog, "config": c, "limit": limit, "samples": samples, "seed": seed}
-        if c in ("aio", "pool"):
+        if c in ("aio", "aiot", "pool"):
             n = len(_explore(case)["runs"])
             chunks = max(1, -(-n // CHUNK))
             for k in range(chunks):
@@ -174,7 +190,7 @@ def show_expr(case, obs):
 def nontrivial(case, obs):
     if "comb" in case:
         return len(case["comb"]["sigma"]) >= 2
-    return case["config"] in ("aio", "pool", "threads") and (
+    return case["config"] in ("aio", "aiot", "pool", "threads") and (
         len(obs["runs"]) > 1 or any("fail" in r for r in obs["runs"]))
 
 
@@ -229,7 +245,7 @@ def shrink(case, is_bad):
     while changed:
         changed = False
         for p in gen_sched.sub_programs(cur["prog"]):
-            if gen_sched.n_tasks(p, "pool") < 1 and cur["config"] in ("aio", "pool", "threads"):
+            if gen_sched.n_tasks(p, "pool") < 1 and cur["config"] in ("aio", "aiot", "pool", "threads"):
                 continue
             cand = dict(cur, prog=p)
             cand.pop("chunk", None)
@@ -253,7 +269,7 @@ def _extra_evidence(cases, obss):
     fails = errs = 0
     for c, o in zip(cases, obss):
         per_cfg[c["config"]] = per_cfg.get(c["config"], 0) + 1
-        if c["config"] in ("aio", "pool"):
+        if c["config"] in ("aio", "aiot", "pool"):
             if c.get("chunk", [0])[0] != 0:
                 continue
             orders += o.get("orders_total", len(o["runs"]))
@@ -262,7 +278,7 @@ def _extra_evidence(cases, obss):
             tasks[n] = tasks.get(n, 0) + 1
         fails += 1 if any("fail" in r for r in o["runs"]) else 0
         errs += 1 if any(r.get("errors") for r in o["runs"]) else 0
-    sched_cases = sum(1 for c in cases if c["config"] in ("aio", "pool") and c.get("chunk", [0])[0] == 0)
+    sched_cases = sum(1 for c in cases if c["config"] in ("aio", "aiot", "pool") and c.get("chunk", [0])[0] == 0)
     return {"exhaustive": bool(sched_cases) and exhaustive == sched_cases,
             "distribution": {
                 "cases_per_configuration": per_cfg,
